@@ -234,6 +234,41 @@ async fn gen_case(rng: &mut Rng, sum: &mut Summary, kind_sel: u64) -> Option<Vec
             sum.count("concurrent_same");
             Some(vec![Case { ops, obs, finals, kind: "concurrent-same" }])
         }
+        // many never-seen peers, 8 tasks racing on each peer's FIRST message: exactly one acceptance per peer
+        4 => {
+            let sys = std::sync::Arc::new(MonotonicCounterSystem::new(path).await.ok()?);
+            let npeers = 40usize;
+            let barrier = std::sync::Arc::new(tokio::sync::Barrier::new(8));
+            let now0 = now_secs();
+            let mut hs = vec![];
+            for t in 0..8u8 {
+                let s = sys.clone(); let b = barrier.clone();
+                hs.push(tokio::spawn(async move {
+                    let mut out = vec![];
+                    for p in 0..npeers {
+                        b.wait().await;
+                        let r = s.validate_sequence(&uid(100 + p as u8), 1, hash(1 + (t % 3))).await.map(|r| conv(&r));
+                        out.push(r);
+                    }
+                    out
+                }));
+            }
+            let mut per_peer: Vec<Vec<R>> = vec![vec![]; npeers];
+            for h in hs { for (p, r) in h.await.ok()?.into_iter().enumerate() { per_peer[p].push(r.ok()?); } }
+            if now_secs() != now0 { return None; }
+            let mut finals = vec![];
+            for (p, rs) in per_peer.iter_mut().enumerate() {
+                let nvalid = rs.iter().filter(|r| **r == R::Valid).count();
+                if nvalid != 1 {
+                    sum.violation(0, "concurrent first submissions for a never-seen peer: number accepted != 1", &[], json!({"accepted": nvalid, "peer": 100 + p}));
+                }
+                rs.sort_by_key(|r| if *r == R::Valid { 0 } else { 1 });
+                for r in rs.iter() { ops.push(Op::Submit { now: now0, p: 100 + p as u8, seq: 1, h: 1, ts: now0 }); obs.push(Some(r.clone())); }
+                finals.push((100 + p as u8, sys.get_peer_counter(&uid(100 + p as u8)).await.map(|c| c.last_valid_sequence).unwrap_or(0)));
+            }
+            sum.count("concurrent_fresh_peers");
+            Some(vec![Case { ops, obs, finals, kind: "concurrent-fresh" }])
+        }
         // one task per peer, each submitting its own script concurrently: isolation
         _ => {
             let sys = std::sync::Arc::new(MonotonicCounterSystem::new(path).await.ok()?);
@@ -278,7 +313,7 @@ fn main() {
     let mut attempts = 0;
     while id < target && attempts < target * 3 {
         attempts += 1;
-        let kind_sel = match rng.below(10) { 0..=5 => 0, 6..=7 => 1, 8 => 2, _ => 3 };
+        let kind_sel = match rng.below(12) { 0..=5 => 0, 6..=7 => 1, 8 => 2, 9 => 3, _ => 4 };
         let mut r2 = rng.fork();
         let cases = rt.block_on(gen_case(&mut r2, &mut sum, kind_sel));
         let Some(cases) = cases else { sum.discarded_ambiguous += 1; continue };
